@@ -195,6 +195,21 @@ Definition guard_check (g : guard) (v : pyval) : option exn :=   (* None = accep
       end
   end.
 
+(* the guard of a property setter, looked up in the table regenerated from the source (Gen_C08.src_setter_guards):
+   class that defines the setter, property name; no row = no guard *)
+Fixpoint guard_of (tbl : list (string * string * guard)) (cls fld : string) : guard :=
+  match tbl with
+  | [] => GAny
+  | (c, f, g) :: r => if String.eqb c cls && String.eqb f fld then g else guard_of r cls fld
+  end.
+
+(* some value passes the guard *)
+Definition guard_inhabited (g : guard) : bool :=
+  match g with
+  | GAny | GAbove _ _ => true
+  | GRange lo hi ls hs => if ls && hs then (lo <? hi)%Z else if ls || hs then (lo <? hi)%Z else (lo <=? hi)%Z
+  end.
+
 (* the final assignment of Processor.set:  obj[att] = v  if obj is a dict holding att; setattr(obj, att, v) if obj is a
    Mapping (Arguments refuses unknown names itself), if type(obj) has a property att (its setter decides) or if att is
    an entry of obj.__dict__ holding a plain value (None, str, number, array, list/tuple of those); else AttributeError *)
